@@ -91,8 +91,11 @@ struct TruncationChecker<T, false> {
     // Specialization for when `IsMagnitudeValid` is false.
     //
     // This means that the magnitude itself could not fit inside of the type; therefore, the only
-    // possible value that would not truncate is zero.
-    static constexpr bool would_truncate(T x, T) { return (x != T{0}); }
+    // possible value that would not truncate is zero.  (As always, by convention, we assume no
+    // truncation for floats.)
+    static constexpr bool would_truncate(T x, T) {
+        return std::is_integral<T>::value && (x != T{0});
+    }
 };
 
 // Multiplying by an integer, for any type T.
@@ -122,7 +125,9 @@ struct ApplyMagnitudeImpl<Mag, ApplyAs::INTEGER_DIVIDE, T, is_T_integral> {
     static_assert(is_T_integral == std::is_integral<T>::value,
                   "Mismatched instantiation (should never be done manually)");
 
-    constexpr T operator()(const T &x) { return x / get_value<RealPart<T>>(MagInverseT<Mag>{}); }
+    constexpr T operator()(const T &x) {
+        return apply(x, stdx::bool_constant<must_multiply_instead()>{});
+    }
 
     static constexpr bool would_overflow(const T &) { return false; }
 
@@ -130,6 +135,24 @@ struct ApplyMagnitudeImpl<Mag, ApplyAs::INTEGER_DIVIDE, T, is_T_integral> {
         constexpr auto mag_value_result = get_value_result<T>(MagInverseT<Mag>{});
         return TruncationChecker<T, mag_value_result.outcome == MagRepresentationOutcome::OK>::
             would_truncate(x, mag_value_result.value);
+    }
+
+ private:
+    // A non-integral T can hold a (tiny) magnitude whose inverse, the integer we would divide by,
+    // exceeds its largest finite value.  Dividing is impossible then, but multiplying is fine.
+    static constexpr bool must_multiply_instead() {
+        return (!is_T_integral) &&
+               (get_value_result<RealPart<T>>(MagInverseT<Mag>{}).outcome !=
+                MagRepresentationOutcome::OK) &&
+               (get_value_result<RealPart<T>>(Mag{}).outcome == MagRepresentationOutcome::OK);
+    }
+
+    static constexpr T apply(const T &x, std::false_type) {
+        return x / get_value<RealPart<T>>(MagInverseT<Mag>{});
+    }
+
+    static constexpr T apply(const T &x, std::true_type) {
+        return x * get_value<RealPart<T>>(Mag{});
     }
 };
 
